@@ -308,16 +308,17 @@ theorem src_jsx_tag_init_genC20b (h : JSXTag_initC20b_available = true)
   all_goals (
     rw [JSXTag_initC20b]
     have hsplit : splitOn '.' name ≠ [] := splitOn_ne_nilC20b '.' name
+    have hnew := src_jsx_attrdict_newC20b hA hu hm hnn G ι kw hkw
+    have hj' : hasJsxArgC20b (.tuple args) = false := by rw [hasJsxArgC20b]; exact hj
+    -- the name test, wherever it stands (before or after the allow-list loop): `pieces[-1][:1] != pieces[-1][:1].upper()`
     simp only [ok_bind, pure_eq_ok, truthy_bool, asStr_str, pySplitSep_str]
     simp only [getItem_lastC20b _ hsplit, ok_bind, asStr_str, slice_take1C20b]
     simp only [← nameInitial_eqC20b, pyUpperC20b, hup, pyEqJ_str, ok_bind, pure_eq_ok]
     unfold jsxInit
-    have hnew := src_jsx_attrdict_newC20b hA hu hm hnn G ι kw hkw
     by_cases hn : nameInitial name = upper (nameInitial name)
     · have hn' : (nameInitial name == upper (nameInitial name)) = true := by simpa using hn
-      rw [if_neg (fun hh => hh hn)]
+      rw [if_neg (show ¬ (nameInitial name ≠ upper (nameInitial name)) from fun hh => hh hn)]
       simp only [hn', Bool.not_true, Bool.false_eq_true, if_false, truthy_bool, ok_bind, pure_eq_ok]
-      have hj' : hasJsxArgC20b (.tuple args) = false := by rw [hasJsxArgC20b]; exact hj
       cases allowed with
       | none =>
         simp only [embAllowedC20b, isNone, Bool.not_true, Bool.false_eq_true, if_false, propsAllowed, pySetAttr_objC15b,
@@ -344,9 +345,32 @@ theorem src_jsx_tag_init_genC20b (h : JSXTag_initC20b_available = true)
               pure_eq_ok, Bool.false_eq_true, if_false]
             cases TagList_init G fuel (PVal.obj "TagList" []) (PVal.tuple args) <;> simp [fieldSet]
     · have hn' : (nameInitial name == upper (nameInitial name)) = false := by simpa using hn
-      rw [if_pos hn]
+      rw [if_pos (show nameInitial name ≠ upper (nameInitial name) from hn)]
       simp only [hn', Bool.not_false, if_true, truthy_bool, ok_bind, pure_eq_ok]
-      rfl)
+      -- NotImplementedError whichever test comes first: at once, or after an allow-list loop that raises the same or nothing
+      first
+      | rfl
+      | (cases allowed with
+         | none =>
+           simp only [embAllowedC20b, isNone, Bool.not_true, Bool.false_eq_true, if_false]
+           rfl
+         | some ps =>
+           simp only [embAllowedC20b, isNone, Bool.not_false, if_true, pyKeys_embKwC20b, pyIterJ_listC20b, ok_bind]
+           refine allowed_loop_kC20b ps kw _ rfl _ _ ?step _ _ ?k
+           case step =>
+             intro kv hkv s
+             simp only [asStr_str, asStr, jsxText?, pyIn_strsC20b, ok_bind, truthy_bool]
+             cases hc : ps.contains kv.1 <;> simp
+           case k =>
+             by_cases hall : (kw.all fun kv => ps.contains kv.1) = true
+             case neg =>
+               have hall' : (kw.all fun kv => ps.contains kv.1) = false := by simpa using hall
+               simp only [hall', Bool.false_eq_true, if_false]
+               rfl
+             case pos =>
+               simp only [hall, if_true]
+               intro s
+               rfl))
 
 /-- `JSXTag(name, *kids, allowedProps=allowed, **kw)` as the source has it = `jsxInit` (Model/Jsx.lean), for children that are
     nodes of the component model (no `jsx` string among them): NotImplementedError for a name without a capital initial or a
@@ -1115,7 +1139,7 @@ theorem src_jsx_tagifyC20b (h : JSXTag_tagifyC20b_available = true)
       have hjoin := pyJoinJ_strs ['\n'] (jsWrapPartsC20b name component)
       simp only [jsWrapPartsC20b, List.map_cons, List.map_nil] at hjoin
       simp only [embRes, ok_bind, hname, pyStrJ_str, pyConcat3, pure_eq_ok, char10C20b, char39C20b, char34C20b, hjoin,
-        pyAddJ_str, mkHTMLC20b, jsxText?, mkHTML, pyStr_str, e1, e2, pyIter_list]
+        pyAddJ_str, mkHTMLC20b, asStr_str, mkHTML, pyStr_str, e1, e2, pyIter_list]
       obtain ⟨f', rfl⟩ : ∃ f', fuel = f' + 5 := ⟨fuel - 5, by omega⟩
       simp only [List.cons_append, List.nil_append]
       have hkid : ∀ (js : Str) (v : PVal), v ∈ PVal.html js :: PVal.obj "HTMLDependency" fs1 :: PVal.obj "HTMLDependency" fs2
